@@ -329,6 +329,43 @@ fresh_good_connection_once(World &W, bool last)
 		VR_CHECK(W.delivered > before, "C11:good-connection-starved", "%s: a valid message on a fresh connection was not delivered after the hostile session", W.P->name);
 		vr_tag("good_connection_served");
 	}
+	rp_pump(&g);
+	if (W.P->exclusive && W.tr != 0 && !g.eof) {
+		// PAIR: while this well-behaved connection is established, an intruder with a well-formed handshake (the right
+		// or a wrong protocol id) is turned away - and that must not disturb the connection that is being served
+		rp  in;
+		int irv = raw_connect(W, &in);
+		if (irv == 0) {
+			uint8_t h[8];
+			rp_hello(h, (W.seq & 1) ? W.P->peer : (uint16_t) 0x30);
+			rp_write(&in, h, 8);
+			for (int w = 0; w < 40 && !in.eof; w++) {
+				vs_sleep(10);
+				vs_settle();
+				rp_pump(&in);
+			}
+			VR_CHECK(in.eof, "C11:intruder-kept", "%s: a second peer was not turned away while the pair is taken", W.P->name);
+			rp_close(&in);
+			vs_sleep(5);
+			vs_settle();
+			// the application can still send to its peer, and the peer sees the frame
+			rp_pump(&g);
+			size_t   rx0 = g.rxlen;
+			nng_msg *m   = h_msg(0x48000000u | ++W.seq, 0);
+			if (W.P->kind == K_PAIR1 && W.P->name[0] == 'x')
+				nng_msg_header_append_u32(m, 1); // raw PAIR1: the application supplies the hop count
+			nng_socket_set_ms(W.s, NNG_OPT_SENDTIMEO, 500);
+			int rv2 = nng_sendmsg(W.s, m, 0);
+			if (rv2 != 0)
+				nng_msg_free(m);
+			VR_CHECK(rv2 == 0, "C11:good-connection-wedged", "%s: after a second peer was turned away the application cannot send to its established peer any more (%d)", W.P->name,
+			    rv2);
+			vs_settle();
+			rp_pump(&g);
+			VR_CHECK(g.rxlen > rx0 && !g.eof, "C11:good-connection-wedged", "%s: the established peer received nothing after a second peer was turned away", W.P->name);
+			vr_tag("intruder_turned_away");
+		}
+	}
 	rp_close(&g);
 	vs_settle();
 }
